@@ -34,10 +34,39 @@ const (
 
 type cmafIngesterMgr struct {
 	nr        atomic.Uint64
+	mu        sync.Mutex // guards ingesters and cancels (API handlers run concurrently)
 	ingesters map[uint64]*cmafIngester
 	state     ingesterState
 	s         *Server
 	cancels   map[uint64]context.CancelFunc
+}
+
+// getIngester returns the session with the given number.
+func (cm *cmafIngesterMgr) getIngester(nr uint64) (*cmafIngester, bool) {
+	cm.mu.Lock()
+	defer cm.mu.Unlock()
+	c, ok := cm.ingesters[nr]
+	return c, ok
+}
+
+func (cm *cmafIngesterMgr) addIngester(nr uint64, c *cmafIngester) {
+	cm.mu.Lock()
+	defer cm.mu.Unlock()
+	cm.ingesters[nr] = c
+}
+
+func (cm *cmafIngesterMgr) setCancel(nr uint64, cancel context.CancelFunc) {
+	cm.mu.Lock()
+	defer cm.mu.Unlock()
+	cm.cancels[nr] = cancel
+}
+
+// getCancel returns the cancel function of a started session.
+func (cm *cmafIngesterMgr) getCancel(nr uint64) (context.CancelFunc, bool) {
+	cm.mu.Lock()
+	defer cm.mu.Unlock()
+	cancel, ok := cm.cancels[nr]
+	return cancel, ok
 }
 
 type cmafIngester struct {
@@ -57,8 +86,34 @@ type cmafIngester struct {
 	asset          *asset
 	repsData       []cmafRepData
 	nextSegTrigger chan struct{}
+	mu             sync.Mutex // guards state and report (session goroutine vs. API handlers)
 	state          ingesterState
 	report         []string
+}
+
+func (c *cmafIngester) setState(s ingesterState) {
+	c.mu.Lock()
+	defer c.mu.Unlock()
+	c.state = s
+}
+
+func (c *cmafIngester) getState() ingesterState {
+	c.mu.Lock()
+	defer c.mu.Unlock()
+	return c.state
+}
+
+func (c *cmafIngester) addReport(msg string) {
+	c.mu.Lock()
+	defer c.mu.Unlock()
+	c.report = append(c.report, msg)
+}
+
+// getReport returns a copy of the report lines.
+func (c *cmafIngester) getReport() []string {
+	c.mu.Lock()
+	defer c.mu.Unlock()
+	return append([]string(nil), c.report...)
 }
 
 func NewCmafIngesterMgr(s *Server) *cmafIngesterMgr {
@@ -75,9 +130,20 @@ func (cm *cmafIngesterMgr) Start() {
 }
 
 func (cm *cmafIngesterMgr) Close() {
+	// Collect under the lock, cancel outside it: no lock is held while calling into a session.
+	type session struct {
+		c      *cmafIngester
+		cancel context.CancelFunc
+	}
+	cm.mu.Lock()
+	sessions := make([]session, 0, len(cm.cancels))
 	for i, cancel := range cm.cancels {
-		if cm.ingesters[i].state == ingesterStateRunning {
-			cancel()
+		sessions = append(sessions, session{cm.ingesters[i], cancel})
+	}
+	cm.mu.Unlock()
+	for _, s := range sessions {
+		if s.c != nil && s.c.getState() == ingesterStateRunning {
+			s.cancel()
 		}
 	}
 }
@@ -197,20 +263,20 @@ func (cm *cmafIngesterMgr) NewCmafIngester(req CmafIngesterSetup) (nr uint64, er
 	if c.dur != nil {
 		c.nrSegsToSend = m.Ptr(*c.dur * 1000 / asset.SegmentDurMS)
 	}
-	cm.ingesters[nr] = &c
+	cm.addIngester(nr, &c)
 
 	return nr, nil
 }
 
 func (cm *cmafIngesterMgr) startIngester(nr uint64) {
-	c, ok := cm.ingesters[nr]
+	c, ok := cm.getIngester(nr)
 	if !ok {
 		return
 	}
 	var ctx context.Context
 	var cancel context.CancelFunc
 	ctx, cancel = context.WithCancel(context.Background())
-	cm.cancels[nr] = cancel
+	cm.setCancel(nr, cancel)
 	go c.start(ctx)
 }
 
@@ -237,7 +303,7 @@ type cmafRepData struct {
 func (c *cmafIngester) start(ctx context.Context) {
 
 	defer func() {
-		c.state = ingesterStateStopped
+		c.setState(ingesterStateStopped)
 	}()
 
 	// Finally we should send off the init segments
@@ -252,7 +318,7 @@ func (c *cmafIngester) start(ctx context.Context) {
 		if ok {
 			if err != nil {
 				msg := fmt.Sprintf("error matching time subs init lang: %v", err)
-				c.report = append(c.report, msg)
+				c.addReport(msg)
 				c.log.Error(msg)
 				return
 			}
@@ -262,7 +328,7 @@ func (c *cmafIngester) start(ctx context.Context) {
 			err := init.EncodeSW(sw)
 			if err != nil {
 				msg := fmt.Sprintf("Error encoding init segment: %v", err)
-				c.report = append(c.report, msg)
+				c.addReport(msg)
 				c.log.Error(msg)
 				return
 			}
@@ -271,19 +337,19 @@ func (c *cmafIngester) start(ctx context.Context) {
 			match, err := matchInit(rd.initPath, c.cfg, c.mgr.s.Cfg.DrmCfg, c.asset)
 			if err != nil {
 				msg := fmt.Sprintf("Error matching init segment: %v", err)
-				c.report = append(c.report, msg)
+				c.addReport(msg)
 				c.log.Error(msg)
 			}
 			if !match.isInit {
 				msg := fmt.Sprintf("Error matching init segment: %v", err)
-				c.report = append(c.report, msg)
+				c.addReport(msg)
 				c.log.Error(msg)
 			}
 			contentType = match.rep.SegmentType()
 			initBin, err = setRawInitProps(match.init, rd, startTimeS)
 			if err != nil {
 				msg := fmt.Sprintf("Error setting init times: %v", err)
-				c.report = append(c.report, msg)
+				c.addReport(msg)
 				c.log.Error(msg)
 			}
 		}
@@ -291,17 +357,17 @@ func (c *cmafIngester) start(ctx context.Context) {
 		err = c.sendInitSegment(ctx, rd, initBin)
 		if err != nil {
 			msg := fmt.Sprintf("error uploading init segment: %v", err)
-			c.report = append(c.report, msg)
+			c.addReport(msg)
 			c.log.Error(msg)
 			nrInitErrors++
 		} else {
 			c.log.Info("Sent init segment", "path", rd.initPath, "contentType", contentType, "size", len(initBin))
-			c.report = append(c.report, fmt.Sprintf("Sent init segment %s", rd.initPath))
+			c.addReport(fmt.Sprintf("Sent init segment %s", rd.initPath))
 		}
 	}
 	if nrInitErrors > 0 {
 		msg := fmt.Sprintf("Number of init errors: %d", nrInitErrors)
-		c.report = append(c.report, msg)
+		c.addReport(msg)
 		c.log.Error("could not upload init segments", "nrErrors", nrInitErrors)
 		return
 	}
@@ -313,7 +379,7 @@ func (c *cmafIngester) start(ctx context.Context) {
 	} else {
 		nowMS = int(time.Now().UnixNano() / 1e6)
 	}
-	c.state = ingesterStateRunning
+	c.setState(ingesterStateRunning)
 
 	refRep := c.asset.refRep
 	lastNr := findLastSegNr(c.cfg, c.asset, nowMS, refRep)
@@ -335,7 +401,7 @@ func (c *cmafIngester) start(ctx context.Context) {
 	availabilityTime, err := calcSegmentAvailabilityTime(c.asset, refRep, uint32(nextSegNr), c.cfg)
 	if err != nil {
 		msg := fmt.Sprintf("Error calculating segment availability time: %v", err)
-		c.report = append(c.report, msg)
+		c.addReport(msg)
 		c.log.Error(msg)
 		return
 	}
@@ -372,7 +438,7 @@ func (c *cmafIngester) start(ctx context.Context) {
 		err := c.sendMediaSegments(ctx, nextSegNr, int(availabilityTime), isLast)
 		if err != nil {
 			msg := fmt.Sprintf("Error sending media segments: %v", err)
-			c.report = append(c.report, msg)
+			c.addReport(msg)
 			c.log.Error(msg)
 			return
 		}
@@ -380,7 +446,7 @@ func (c *cmafIngester) start(ctx context.Context) {
 		availabilityTime, err = calcSegmentAvailabilityTime(c.asset, refRep, uint32(nextSegNr), c.cfg)
 		if err != nil {
 			msg := fmt.Sprintf("Error calculating segment availability time: %v", err)
-			c.report = append(c.report, msg)
+			c.addReport(msg)
 			c.log.Error(msg)
 			return
 		}
@@ -401,12 +467,12 @@ func (c *cmafIngester) start(ctx context.Context) {
 					return
 				}
 				msg := fmt.Sprintf("Segment availability time in the past: %d", availabilityTime)
-				c.report = append(c.report, msg)
+				c.addReport(msg)
 				c.log.Error(msg)
 				err := c.sendMediaSegments(ctx, nextSegNr, int(availabilityTime), nextSegNr == lastSegNrToSend)
 				if err != nil {
 					msg := fmt.Sprintf("Error sending media segments: %v", err)
-					c.report = append(c.report, msg)
+					c.addReport(msg)
 					c.log.Error(msg)
 					return
 				}
@@ -414,7 +480,7 @@ func (c *cmafIngester) start(ctx context.Context) {
 				availabilityTime, err = calcSegmentAvailabilityTime(c.asset, refRep, uint32(nextSegNr), c.cfg)
 				if err != nil {
 					msg := fmt.Sprintf("Error calculating segment availability time: %v", err)
-					c.report = append(c.report, msg)
+					c.addReport(msg)
 					c.log.Error(msg)
 					return
 				}
